@@ -245,7 +245,7 @@ def gen_cases(ctx):
             for r, p, m in itertools.product(around, around, [None] + around):
                 k = len(cases)
                 cases.append(dict(R=RENDERERS[k % 3] if (r != d or (m is not None and m != d)) else "pixel",
-                                  d=d, r=r, p=p, m=m, neg=False, mdtype=["bool", "int", "float"][k % 3],
+                                  d=d, r=r, p=p, m=m, neg=False, mdtype=["bool", "int", "float"][(k // 3) % 3],
                                   kind="jax" if k % 5 == 0 else "numpy"))
                 if k % 4 == 0:
                     cases.append(dict(R="pixel", d=d, r=r, p=p, m=m, neg=True))
